@@ -22,7 +22,7 @@ def body_stop(E, mn, mx, get, v0, v1, v2, v3, v4, v5, v6, v7, c0, c1, c2, c3, c4
     get = concretize(get, 0, 2)
     vals = [v0, v1, v2, v3, v4, v5, v6, v7]
     conv = [c0, c1, c2, c3, c4, c5, c6, c7]
-    calls, asked = [], []
+    calls, asked, wrong = [], [], []
 
     def fn(*a, **k):
         if a != (3,) or k != {"kw": 4}:
@@ -32,7 +32,7 @@ def body_stop(E, mn, mx, get, v0, v1, v2, v3, v4, v5, v6, v7, c0, c1, c2, c3, c4
 
     def converged(self, rtol, atol):
         if rtol != 0.02 or atol != 0.02 * 2.0:
-            raise HarnessError("tolerances not forwarded: %r %r" % (rtol, atol))
+            wrong.append((rtol, atol))       # documented: converged(rtol, tol_scale * rtol)
         asked.append(self.count)
         return conv[self.count - 1]
 
@@ -44,6 +44,8 @@ def body_stop(E, mn, mx, get, v0, v1, v2, v3, v4, v5, v6, v7, c0, c1, c2, c3, c4
     finally:
         RunningStatistics.converged = old
     n = len(calls)
+    if wrong:
+        return False                         # convergence was tested against other tolerances than requested
     if get == 1:
         rs, xs = out
         if xs != vals[:n]:
